@@ -146,7 +146,7 @@ Proof. intros c e a b. exact (square_only_generic FUEL table c e a b). Qed.
 Ltac crush_op :=
   intros; try reflexivity;
   unfold gen_diag_add_diagonal, lib_diag_add_diagonal, gen_diag_add, lib_diag_add, gen_constdiag_add, lib_constdiag_add,
-         gen_constdiag_mul_matrix, lib_constdiag_mul_matrix, gen_dense_add, lib_dense_add, gen_zero_add, lib_zero_add,
+         gen_constdiag_mul_matrix, lib_constdiag_mul_matrix, gen_dense_add, lib_dense_add,
          gen_zero_mul, lib_zero_mul, bind, try_catch, lift;
   repeat (match goal with
           | |- context [match ?x with _ => _ end] => destruct_inner x
@@ -163,8 +163,6 @@ Lemma gen_constdiag_mul_matrix_eq : forall a b, gen_constdiag_mul_matrix a b = l
 Proof. crush_op. Qed.
 Lemma gen_dense_add_eq : forall a b, gen_dense_add a b = lib_dense_add a b.
 Proof. crush_op. Qed.
-Lemma gen_zero_add_eq : forall a b, gen_zero_add a b = lib_zero_add a b.
-Proof. crush_op. Qed.
 Lemma gen_zero_mul_eq : forall a b, gen_zero_mul a b = lib_zero_mul a b.
 Proof. crush_op. Qed.
 
@@ -173,8 +171,7 @@ Proof. crush_op. Qed.
    existing one moved in front of its check — is not in the list and breaks the theorem) *)
 Open Scope string_scope.
 Definition pinned_fastpaths : list fastpath :=
-  [FP "LinearOperator" E_add RetSelf [] [];                         (* `isinstance(other, numbers.Number) and other == 0` *)
-   FP "LinearOperator" E_add RetSelf ["ZeroLinearOperator"] [];     (* known finding C19-add-zero-operand-ignored *)
+  [FP "LinearOperator" E_add RetSelf ["ZeroLinearOperator"] [];     (* known finding C19-add-zero-operand-ignored *)
    FP "SumLinearOperator" E_add RetSelf ["ZeroLinearOperator"] [];  (* same finding *)
    FP "LinearOperator" E_mul RetOperand ["ZeroLinearOperator"] [];  (* known finding C19-mul-zero-operand-returns-other *)
    FP "ZeroLinearOperator" E_add RetOperand [] []].                 (* known finding C19-zero-add-returns-other *)
